@@ -165,11 +165,19 @@ def mergeChanges (outs : List Output) (idx : Option Nat) (changes : List Output)
   | some i, [c] => addAt c.amount i outs
   | _, _ => outs ++ changes
 
+/-- the merge target of `_add_change_and_fee`: only looked for when `merge_change` is set -/
+def mergeIndex (outs : List Output) (a : ChangeArgs) (mergeChange : Bool) : Option Nat :=
+  if mergeChange then changeIndex a.addr outs else none
+
+/-- arguments of the final `_calc_change`: the minimum ADA of the change is enforced unless there is an output to
+merge the change into (`respect_min_utxo = change_output_index is None`) -/
+def finalArgs (outs : List Output) (a : ChangeArgs) (mergeChange : Bool) : ChangeArgs :=
+  { a with outputs := outs.map (·.amount), respect := (mergeIndex outs a mergeChange).isNone }
+
 /-- the output list of the body after `_add_change_and_fee(change_address, merge_change)` with final fee `a.fee` -/
 def finalOutputs (p : Params) (outs : List Output) (a : ChangeArgs) (mergeChange : Bool) : Except Err (List Output) :=
-  let idx := if mergeChange then changeIndex a.addr outs else none
-  match calcChange p { a with outputs := outs.map (·.amount), respect := !mergeChange } with
+  match calcChange p (finalArgs outs a mergeChange) with
   | .error e => .error e
-  | .ok cs => .ok (mergeChanges outs idx cs)
+  | .ok cs => .ok (mergeChanges outs (mergeIndex outs a mergeChange) cs)
 
 end Pyc.Builder
